@@ -119,6 +119,58 @@ static int _ZNSt6thread4joinEv_step(struct FR__ZNSt6thread4joinEv *fr) {
 }
 uint32_t _ZNSt6thread20hardware_concurrencyEv(void) { return 2; }
 
+/* ---- C11: lockset (Eraser) monitor over the shared regions the harness registers with verif_shared().
+ * Per 4-byte granule: virgin -> exclusive(first thread) -> shared (read by a second thread) / shared-modified
+ * (written after becoming shared); the candidate lockset is intersected with the locks held at every access
+ * once the granule is shared; an empty lockset in state shared-modified is a data race. */
+#ifndef VERIF_NREG
+#define VERIF_NREG 4
+#endif
+#ifndef VERIF_NGRAN
+#define VERIF_NGRAN 64
+#endif
+static uint8_t *verif_reg_base[VERIF_NREG]; static uint64_t verif_reg_size[VERIF_NREG]; static uint32_t verif_nreg;
+static uint8_t verif_sh_state[VERIF_NREG][VERIF_NGRAN], verif_sh_owner[VERIF_NREG][VERIF_NGRAN];
+static uint32_t verif_sh_locks[VERIF_NREG][VERIF_NGRAN];
+uint32_t verif_race_site;
+void verif_shared(uint8_t *p, uint64_t size) {
+  __CPROVER_assert(verif_nreg < VERIF_NREG && size <= 4 * VERIF_NGRAN, "VERIF model: shared region table too small"); __CPROVER_assume(verif_nreg < VERIF_NREG && size <= 4 * VERIF_NGRAN);
+  verif_reg_base[verif_nreg] = p; verif_reg_size[verif_nreg] = size; verif_nreg++;
+}
+static uint32_t verif_held(void) {
+  uint32_t m = 0;
+  for (uint32_t i = 0; i < VERIF_MAXM; i++) if (i < verif_nmtx && verif_mtx_owner[i] == (int32_t)(verif_cur + 1)) m |= 1u << i;
+  return m;
+}
+static void verif_acc_gran(uint32_t r, uint64_t g, uint32_t w) {
+  uint8_t st = verif_sh_state[r][g];
+  uint32_t held = verif_held();
+  if (st == 0) { verif_sh_state[r][g] = 1; verif_sh_owner[r][g] = (uint8_t)verif_cur; return; }
+  if (st == 1) {
+    if (verif_sh_owner[r][g] == verif_cur) return;
+    verif_sh_state[r][g] = w ? 3 : 2; verif_sh_locks[r][g] = held; st = verif_sh_state[r][g];
+  } else {
+    verif_sh_locks[r][g] &= held;
+    if (w) { verif_sh_state[r][g] = 3; st = 3; }
+  }
+  if (st == 3) { verif_race_site = r * 1000 + (uint32_t)g; __CPROVER_assert(verif_sh_locks[r][g] != 0, "VERIF concurrency: data race - shared location written without a common lock"); }
+}
+void verif_acc(uint8_t *p, uint64_t sz, uint32_t w) {
+  for (uint32_t r = 0; r < VERIF_NREG; r++) {
+    if (r >= verif_nreg) break;
+#ifdef __CPROVER__
+    if (__CPROVER_POINTER_OBJECT(p) != __CPROVER_POINTER_OBJECT(verif_reg_base[r])) continue;
+    uint64_t off = (uint64_t)(__CPROVER_POINTER_OFFSET(p) - __CPROVER_POINTER_OFFSET(verif_reg_base[r]));
+#else
+    if (p < verif_reg_base[r] || p >= verif_reg_base[r] + verif_reg_size[r]) continue;
+    uint64_t off = (uint64_t)(p - verif_reg_base[r]);
+#endif
+    if (off >= verif_reg_size[r]) continue;
+    verif_acc_gran(r, off / 4, w);
+    if (sz > 4 && off / 4 + 1 < VERIF_NGRAN) verif_acc_gran(r, off / 4 + 1, w);
+  }
+}
+
 /* ---- scheduler */
 static int verif_enabled(uint32_t t) {
   if (!verif_thr[t].active || verif_thr[t].done) return 0;
